@@ -1,0 +1,50 @@
+//go:build verif
+
+package kv
+
+// Contracts for the deductive checks in /verif (read by /verif/govc; comment-only, no code).
+
+//@ import indexer github.com/tendermint/tendermint/state/indexer
+//@ import query github.com/tendermint/tendermint/libs/pubsub/query
+
+// ASSUMED (trusted) of the two scanning helpers, as for the block indexer: they return the matches of their
+// condition, intersected with the hashes filtered so far unless this is the first condition.
+//@ spec func rangeHit(qr indexer.QueryRange, k string) bool
+//@ spec func condHit(c query.Condition, k string) bool
+//@ func TxIndex.matchRange
+//@   trusted
+//@   assigns nothing
+//@   ensures hits: forall(k, has(result, k) <==> (rangeHit(qr, k) && (firstRun || has(filteredHashes, k))))
+//@ func TxIndex.match
+//@   trusted
+//@   assigns nothing
+//@   ensures hits: forall(k, has(result, k) <==> (condHit(c, k) && (firstRun || has(filteredHashes, k))))
+//@ func TxIndex.Get
+//@   trusted
+//@   assigns nothing
+//@ func lookForHash
+//@   trusted
+//@   assigns nothing
+//@ func lookForHeight
+//@   trusted
+//@   assigns nothing
+//@ func startKey
+//@   trusted
+//@   assigns nothing
+//@ func startKeyForCondition
+//@   trusted
+//@   assigns nothing
+//@ func intInSlice
+//@   assigns nothing
+//@   ensures def: result <==> exists(j, 0, len(list), list[j] == a)
+//@   loop 1 invariant none: 0 <= rangeindex + 1 && rangeindex + 1 <= len(list) && forall(j, 0, rangeindex + 1, list[j] != a)
+
+//@ func TxIndex.Search
+//@   atcall intInSlice init: len(ranges) > 0 ==> hashesInitialized
+//@   atcall intInSlice sound: forall(k, has(filteredHashes, k) ==> forall(rk, has(ranges, rk) ==> rangeHit(ranges[rk], k)))
+//@   loop 1 invariant init: forall(rk, visitedn(1, rk) ==> hashesInitialized)
+//@   loop 1 invariant sound: forall(k, has(filteredHashes, k) ==> forall(rk, visitedn(1, rk) ==> rangeHit(ranges[rk], k)))
+//@   loop 1 invariant first: !hashesInitialized ==> forall(rk, !visitedn(1, rk))
+//@   loop 2 invariant init: len(ranges) > 0 ==> hashesInitialized
+//@   loop 2 invariant sound: forall(k, has(filteredHashes, k) ==> forall(rk, has(ranges, rk) ==> rangeHit(ranges[rk], k)))
+//@   loop 3 invariant none: true
